@@ -787,3 +787,128 @@ Lemma finished_update_reached_snapshot cf tr p n snap b e :
   In (p, n, snap, b) (completed (run cf tr)) -> In e snap ->
   In (fst e, snd e, p, n) (delivered (run cf tr)) \/ ch_rx (chans (run cf tr) (fst e)) = false.
 Proof. destruct (invD_run cf tr) as (_ & _ & _ & H). intros H1 H2. exact (H p n snap b H1 e H2). Qed.
+
+(* ------------------------------------------------------------ termination *)
+
+(* once the root handled Terminate, every attached live clone has seen it or has it queued *)
+Definition InvT (s : st) : Prop :=
+  root_term s = true -> forall c, c_alive (clones s c) = true -> c_att (clones s c) = true ->
+  c_term (clones s c) = true \/ In FTerm (c_q (clones s c)).
+
+Lemma notify_other x y cl c :
+  c_alive (notify x cl c) = c_alive (cl c) /\ c_att (notify x cl c) = c_att (cl c) /\
+  c_term (notify x cl c) = c_term (cl c) /\
+  (In y (c_q (cl c)) -> In y (c_q (notify x cl c))).
+Proof.
+  unfold notify. destruct (c_alive (cl c) && c_att (cl c)); cbn; repeat split; auto.
+  intros H. apply in_or_app. left. exact H.
+Qed.
+
+Lemma notify_reaches x cl c : c_alive (cl c) = true -> c_att (cl c) = true -> In x (c_q (notify x cl c)).
+Proof.
+  intros H1 H2. unfold notify. rewrite H1, H2. cbn. apply in_or_app. right. left. reflexivity.
+Qed.
+
+Lemma invT_step cf s a : InvT s -> InvT (step cf s a).
+Proof.
+  intros H. destruct a; cbn [step]; try exact H.
+  - destruct (links s l); [destruct (root_dropped s)|..]; exact H.
+  - destruct (links s l) as [| |x b0]; [| |destruct (is_direct l)]; exact H.
+  - destruct (links s l) as [| |x b0]; [| |destruct (Bool.eqb b b0)]; exact H.
+  - destruct (links s l) as [| |x b0]; [| |destruct (is_direct l); [|destruct (ch_q (chans s x)) as [|[p n] q]]]; exact H.
+  - destruct (root_term s || root_dropped s) eqn:Et; [exact H|].
+    apply orb_false_iff in Et. destruct Et as [Et _].
+    destruct (rootq s) as [|c q] eqn:E; [exact H|].
+    unfold InvT in *. des_st s. cbn in *. subst rt.
+    destruct c as [l|x|x [|]|c|c|]; cbn; try (intros Hf; discriminate Hf).
+    + destruct (m_find x u); cbn; intros Hf; discriminate Hf.
+    + destruct (m_find x su); cbn; intros Hf; discriminate Hf.
+    + intros _ c Ha Hatt. right.
+      destruct (notify_other FTerm FTerm cl c) as (E1 & E2 & _). rewrite E1 in Ha. rewrite E2 in Hatt.
+      apply notify_reaches; assumption.
+  - destruct (pub_idle s 0); exact H.
+  - unfold InvT in *. des_st s. cbn in *. intros Ht c. unfold fupd.
+    destruct (c =? nc); cbn; [intros _ Hf; discriminate Hf|apply H, Ht].
+  - destruct (c_alive (clones s c) && negb (c_term (clones s c))) eqn:Eg; [|exact H].
+    destruct (c_q (clones s c)) as [|x q] eqn:Eq.
+    + destruct (root_dropped s); [|exact H]. unfold InvT in *. des_st s. cbn in *.
+      intros Ht c'. unfold fupd. destruct (N.eqb_spec c' c); [subst; cbn; auto|apply H, Ht].
+    + assert (Hmid : InvT (set_clones (fupd (clones s) c (set_cq q (clones s c))) s) \/ x = FTerm).
+      { destruct x as [e|y|]; [left|left|right; reflexivity];
+          unfold InvT in *; des_st s; cbn in *; intros Ht c'; unfold fupd;
+          (destruct (N.eqb_spec c' c); [subst c'; cbn; intros Ha Hatt;
+             destruct (H Ht c Ha Hatt) as [?|Hin]; [left; assumption|right; rewrite Eq in Hin; destruct Hin as [Hd|?]; [discriminate Hd|assumption]]
+           |apply H, Ht]). }
+      destruct x as [e|y|]; cbn [clone_handle].
+      * destruct Hmid as [Hmid|Hd]; [|discriminate Hd]. destruct (cf_follow cf); exact Hmid.
+      * destruct Hmid as [Hmid|Hd]; [|discriminate Hd]. destruct (cf_follow cf); exact Hmid.
+      * unfold InvT in *. des_st s. cbn in *. intros Ht c'.
+        destruct (N.eq_dec c' c) as [->|Hn].
+        -- rewrite !fupd_eq. cbn. auto.
+        -- rewrite !fupd_neq by exact Hn. apply H, Ht.
+  - destruct (c_alive (clones s c) && pub_idle s c && negb (c =? 0)); [|exact H].
+    unfold InvT in *. des_st s. cbn in *. intros Ht c'. unfold fupd.
+    destruct (c' =? c); cbn; [intros Hf; discriminate Hf|apply H, Ht].
+  - destruct (pubs s p) as [n|n snap rest sent]; [destruct (pub_alive s p)|]; exact H.
+  - destruct (pubs s p) as [n|n snap [|[y l] rest] sent]; try exact H.
+    destruct (is_direct l); [exact H|]. destruct (negb (ch_rx (chans s y))); [exact H|].
+    destruct (N.of_nat (length (ch_q (chans s y))) <? cf_cap cf); exact H.
+  - destruct (pubs s p) as [n|n snap [|e rest] sent]; exact H.
+Qed.
+
+Lemma invT_run cf tr : InvT (run cf tr).
+Proof. unfold run. apply run_from_inv; [intros s a; apply invT_step|]. intros Hf. discriminate Hf. Qed.
+
+Lemma cterm_stable cf s c :
+  c_term (clones s c) = true -> step cf s (ACloneStep c) = s.
+Proof. intros H. cbn [step]. rewrite H. rewrite andb_false_r. reflexivity. Qed.
+
+Lemma clone_drain_stable cf fuel s c :
+  c_term (clones s c) = true -> c_term (clones (clone_drain cf fuel s c) c) = true.
+Proof.
+  revert s. induction fuel as [|f IH]; intros s H; cbn [clone_drain]; [exact H|].
+  rewrite cterm_stable by exact H. apply IH, H.
+Qed.
+
+(* process() until the queue is empty ends in Terminated if Terminate is queued, or if the
+   root gate (the only holder of senders to the clone's command channel) has been dropped *)
+Lemma clone_drain_term cf fuel : forall s c,
+  c_alive (clones s c) = true ->
+  root_dropped s = true \/ In FTerm (c_q (clones s c)) \/ c_term (clones s c) = true ->
+  (length (c_q (clones s c)) < fuel)%nat ->
+  c_term (clones (clone_drain cf fuel s c) c) = true.
+Proof.
+  induction fuel as [|f IH]; intros s c Ha Hc Hl; [inversion Hl|].
+  cbn [clone_drain].
+  destruct (c_term (clones s c)) eqn:Et.
+  { rewrite cterm_stable by exact Et. apply clone_drain_stable, Et. }
+  cbn [step]. rewrite Ha, Et. cbn [negb andb].
+  destruct (c_q (clones s c)) as [|x q] eqn:Eq.
+  - destruct Hc as [Hd|[[]|Hf]]; [|discriminate Hf]. rewrite Hd.
+    apply clone_drain_stable. des_st s. cbn in *. rewrite fupd_eq. reflexivity.
+  - destruct x as [e|y|]; cbn [clone_handle].
+    + assert (Hq : In FTerm q \/ root_dropped s = true).
+      { destruct Hc as [?|[[Hd|?]|Hf]]; [right; assumption|discriminate Hd|left; assumption|discriminate Hf]. }
+      destruct (cf_follow cf); (apply IH;
+        [des_st s; cbn in *; rewrite fupd_eq; cbn; exact Ha
+        |des_st s; cbn in *; rewrite fupd_eq; cbn; tauto
+        |des_st s; cbn in *; rewrite fupd_eq; cbn in *; lia]).
+    + assert (Hq : In FTerm q \/ root_dropped s = true).
+      { destruct Hc as [?|[[Hd|?]|Hf]]; [right; assumption|discriminate Hd|left; assumption|discriminate Hf]. }
+      destruct (cf_follow cf); (apply IH;
+        [des_st s; cbn in *; rewrite fupd_eq; cbn; exact Ha
+        |des_st s; cbn in *; rewrite fupd_eq; cbn; tauto
+        |des_st s; cbn in *; rewrite fupd_eq; cbn in *; lia]).
+    + apply clone_drain_stable. des_st s. cbn in *. rewrite fupd_eq. reflexivity.
+Qed.
+
+Lemma terminate_reaches_clones cf tr c :
+  let s := run cf tr in
+  c_alive (clones s c) = true ->
+  (root_term s = true /\ c_att (clones s c) = true) \/ root_dropped s = true ->
+  c_term (clones (clone_drain cf (S (length (c_q (clones s c)))) s c) c) = true.
+Proof.
+  intros s Ha Hc. apply clone_drain_term; [exact Ha| |lia].
+  destruct Hc as [[Ht Hatt]|Hd]; [|left; exact Hd].
+  right. destruct (invT_run cf tr Ht c Ha Hatt) as [?|?]; [right; assumption|left; assumption].
+Qed.
